@@ -147,6 +147,7 @@ NOT_YET = {}
 HOOK_COMMITS = ["9877bf3e3ed6b809e1750388ee1b4a8e8957b690"]
 
 PROPS["C01"] = dict(
+    translators=True,
     level="proof",
     level_text="Coq theorem C01_history: the structural invariant is inductive over every history of editing calls, for all "
                "maps, arguments, attribute laws and injected law failures; the model it is about is tied to the code by "
@@ -578,6 +579,7 @@ WF3_CLASSES = {"1": "3-map ill-formed after an in-contract call", "2": "C02:non-
 MAP3_TRUST = PROPS["C01"]["trusted"][:3] + [
     "hand-written Gallina model of dim3/{links,sews,basic_ops,orbits}.rs (Map3/Ops3.v); hex grids from the translated tables"]
 PROPS["C02"] = dict(
+    translators=True,
     level="translation_validation",
     level_text="the 3-map calls (links with the lock-step face walks, sews, allocation, ids, orbits) are transcribed in Gallina and "
                "compared with the implementation (random histories from free darts, edits of hexahedral grids, all pairs of "
@@ -638,6 +640,7 @@ PROPS["C18"] = dict(
 SERIAL_CLASSES = {"1": "a thread panicked inside a transaction", "2": "a thread did not terminate (retry loop / deadlock)",
                   "3": "no one-at-a-time order of the committed transactions gives the final map"}
 PROPS["C07"] = dict(
+    translators=True,
     level="proof",
     level_text="Coq theorem C07_serializable: in the fast-stm protocol machine (per-variable versions, first reads logged, validation of "
                "all logged reads at commit, atomic publication, abort/panic publish nothing) EVERY schedule of ANY workload of programs "
